@@ -61,6 +61,12 @@ CHECKS["C14"] = ("model_checking",
     "A function is never its own dependency (self entries and self links excluded); explicit-version callers are exempt from enforcement as documented; graphs beyond 4 nodes are not enumerated.",
     "DESIGN.md §3 C14")
 
+CHECKS["C13"] = ("model_checking",
+    "explicit-state BFS over in-process event histories on a live module; oracle = versions computed by a fresh process for the program text the history denotes",
+    "Every sequence up to depth 3 (quick) / 4 (thorough) over 17 events - redefine f / g / h, rebind G and variables reachable only through a helper or only through a memento dependency, mutate a list in place, define a late symbol as helper or as variable, define a missing attribute, turn g into a plain function and back, rebind the head of a dotted name, create a modifier clone / an unregistered wrapper and query it, query f / g - is replayed in a fresh process on a live generated module; after every transition every version asked (f, g, clones and wrappers of the current code) must equal what a fresh interpreter computes for the resulting program text. One history is kept per canonical (program text, version-cache entries, generation currency, hash-rule digests) state.",
+    "Re-definitions are compiled with the module's import header (CPython emits different byte code for sys.audit depending on whether import sys is in the same compilation unit); clones/wrappers holding superseded code are not queried; locked clusters are exempt by the statement.",
+    "DESIGN.md §3 C13")
+
 PENDING = {}
 
 
